@@ -183,7 +183,7 @@ func runProp(r *chk.Run, prop string) {
 // scalee1.go) as a sub-run and files what it found under this run.
 func scaleHalf(r *chk.Run, prop string) {
 	bin := os.Getenv("VERIF_SCALE_BIN")
-	if bin == "" || r.Violated() || prop == "C06" {
+	if bin == "" || r.Violated() {
 		return
 	}
 	f, err := os.CreateTemp("", "verif-sub-*.json")
